@@ -340,7 +340,7 @@ KATS = [
 
 
 # ciphers that exist inside the Coq model (model/Des.v ...): driver table names for encryption / decryption
-MODEL_CIPHERS = {'tdes': ('TDES', 'TDESD')}
+MODEL_CIPHERS = {'tdes': ('TDES', 'TDESD'), 'aes': ('AES', 'AESD')}
 
 
 def rand_kat_cases(rng, n):
